@@ -377,6 +377,20 @@ def main(tier, seed, budget):
             sweeps += [(('core_maths', 4, 1), 0), (('osc_maths', 3, 1), 600), (('base_e_maths', 3, 1), 600)]
         for sk, cap in sweeps:
             run_sweeps(sk, cap)
+        # every source line, all blocks, on the next larger configuration as well (first arrival only)
+        for key in [('core_maths', 4, 1)] + ([] if quick else [('core_maths', 5, 1), ('osc_maths', 4, 1)]):
+            if key in profiles:
+                pr = profiles[key][0]
+                lj = []
+                for L in sorted({L for e in pr for L in e[5]}):
+                    a = base_args(cfg_by[key[:2]], 1, base.run_seed(seed, 550000 + L))
+                    a['plan'] = {'0': {'*': ['line', L, 1]}}
+                    a['max_steps'] = 40 * prof_steps[key] + 5000
+                    lj.append(dict(fn=JOB, args=a, timeout=900))
+                n0 = stats['worlds']
+                for job, out in pool.imap(lj, timeout=900):
+                    handle(job, out, pending_min)
+                stats['line_sweep'].append(dict(config=list(key), source_lines=len(lj), plans_run=stats['worlds'] - n0, complete=True, occurrences=[1]))
         rare_line_sweep(('core_maths', 5, 1), ('core_maths', 3, 1), 2 if quick else 6)
         rare_line_sweep(('core_maths', 4, 1), ('core_maths', 3, 1), 2 if quick else 6)
         # ---- seeded sampling of fault plans ----
